@@ -171,6 +171,7 @@ type c18Cfg struct {
 	pct           [3][4]int64 // quarter-percent; -1 = key absent; [dim][low, high, prodLow, prodHigh]
 	wts           [3]int64    // nodePool.ResourceWeights; -1 = key absent
 	relapse       int         // 0 free generation; 1 / 2: node 0 is (node-level / prod) overloaded until it is drained, recovers, relapses
+	hshape        int         // 1: directed "headroom" stream (c18GenCfgHeadroom): node 0 prod source, node 1 both-low, node 2 node-low / prod-mid
 	useSelector   bool
 	viaNew        bool
 	exclNS        bool
@@ -306,6 +307,64 @@ func c18GenCfg(r *vRand) c18Cfg {
 		}
 	}
 	return c
+}
+
+// c18GenCfgHeadroom: configuration of the directed "headroom" stream (extension round 5).  Static cpu thresholds with the
+// prod window 5-10 points under the node window (memory tracked at the default 100/100, pods untracked), no dry-run, no
+// selector, anomaly gating off or light.  The nodes 0..2 of such a case are built by c18ShapeHeadroom.
+func c18GenCfgHeadroom(r *vRand) c18Cfg {
+	c := c18Cfg{hshape: 1, norm: r.Range(1, 3), wts: [3]int64{1, 1, 1}}
+	c.abn = int(r.Pick([]int64{0, 1, 1, 2}))
+	for d := 0; d < 3; d++ {
+		c.pct[d] = [4]int64{-1, -1, -1, -1}
+	}
+	lo := r.Pick([]int64{120, 140, 160})      // node low 30 / 35 / 40 %
+	hi := lo + r.Pick([]int64{60, 80, 100})   // node high 15 - 25 points above
+	c.pct[0] = [4]int64{lo, hi, lo - int64(r.Range(20, 40)), hi - int64(r.Range(20, 40))}
+	return c
+}
+
+// c18ShapeHeadroom fills the pods / metrics of the three shaped nodes of the "headroom" stream (cpu in quarter-percents of
+// the node's capacity; memory of every pod tiny):
+//
+//	node 0 (S): prod usage just above prod high, node usage at or under node high => source of the PROD pass only; one big
+//	            prod pod the filters reject plus 3-5 small removable prod pods (1-2 % each), more of them than the
+//	            both-low node can take;
+//	node 1 (B): node usage just under node low, nearly all of it NON-prod => both-low: its prod headroom is several times
+//	            its node headroom; small capacity;
+//	node 2 (L): node usage at or under node low, prod usage between prod low and prod high => a node-level receiver only
+//	            (it cannot take prod pods); large capacity, so most of the node pass's headroom is its.
+func c18ShapeHeadroom(r *vRand, c c18Cfg, n *c18Node, podID *int, ev *c18Evictor) {
+	lo, hi, plo, phi := c.pct[0][0], c.pct[0][1], c.pct[0][2], c.pct[0][3]
+	q := func(qp int64) int64 { return n.cap[0] * qp / 400 }
+	add := func(prod bool, cpu int64, removable bool) {
+		*podID++
+		p := &c18Pod{id: *podID, node: n.id, name: *podID, prod: prod, hasMetric: true, s1: removable, s2: removable, evictOK: !r.Chance(1, 20)}
+		c18BuildPod(r, c, p)
+		n.pods = append(n.pods, p)
+		ev.byKey[p.obj.Namespace+"/"+p.obj.Name] = p
+		n.metrics = append(n.metrics, c18Metric{ns: p.ns, name: p.name, m: [2]int64{cpu, int64(r.Range(0, 3)) << 20}})
+	}
+	switch n.id {
+	case 0:
+		m := int64(r.Range(3, 5))
+		budget := hi - phi + 6 // what the small pods may add on top of the big one (phi - 8) with node usage <= hi
+		s := int64(r.Range(4, int(budget/m)))
+		add(true, q(phi-8), false)
+		for i := int64(0); i < m; i++ {
+			add(true, q(s), true)
+		}
+		n.sys = [2]int64{q(int64(r.Range(0, 2))), int64(r.Range(0, 8)) << 20}
+	case 1:
+		add(false, q(lo-int64(r.Range(12, 20))), r.Bool())
+		if r.Chance(2, 3) {
+			add(true, q(int64(r.Range(0, 8))), r.Bool())
+		}
+		n.sys = [2]int64{q(int64(r.Range(0, 4))), int64(r.Range(0, 8)) << 20}
+	default:
+		add(true, q(plo+int64(r.Range(2, int(lo-plo-2)))), r.Bool())
+		n.sys = [2]int64{q(int64(r.Range(0, 2))), int64(r.Range(0, 8)) << 20}
+	}
 }
 
 func c18Thresholds(c c18Cfg, k int) deschedulerconfig.ResourceThresholds {
@@ -565,7 +624,8 @@ func c18GenRound(r *vRand, c c18Cfg, rd int, relapsePhase *int, nodes []*c18Node
 		if r.Chance(1, 30) {
 			n.unsched = !n.unsched
 		}
-		if c.relapse > 0 {
+		shaped := c.hshape > 0 && n.id < 3
+		if c.relapse > 0 || shaped {
 			n.unsched = false
 		}
 		c18BuildNode(n)
@@ -596,6 +656,9 @@ func c18GenRound(r *vRand, c c18Cfg, rd int, relapsePhase *int, nodes []*c18Node
 			k += 2
 		}
 		forceProd := -1 // -1 free, 0 all non-prod, 1 all prod
+		if shaped {
+			n.metricKind, level, k = 0, [2]int64{}, 0
+		}
 		if c.relapse > 0 {
 			n.metricKind = 0
 			hot := n.id == 0 && *relapsePhase != 1
@@ -720,6 +783,10 @@ func c18GenRound(r *vRand, c c18Cfg, rd int, relapsePhase *int, nodes []*c18Node
 			if !c.dev && r.Chance(1, 3) {
 				n.sys[d] += int64(r.Range(0, int(unit/2)+1)) // off-grid values in static mode
 			}
+		}
+		if shaped {
+			// the free generator above produced no pod and only zero-valued (orphan) entries for this node
+			c18ShapeHeadroom(r, c, n, podID, ev)
 		}
 		// what the oracle takes as measured: every reported entry counts for the node; an entry counts as prod usage
 		// iff its namespace AND name are those of a prod pod assigned to the node; a pod's own metric is the last
